@@ -19,6 +19,10 @@
  *   silence => no directory dangles and every '..' equals the parent;
  *   -DLOOPCHECK: silence => no directory's chain is a LOOP either (a cycle of directories that does not
  *       contain the root is unreachable from the root).
+ *       GENUINE FINDING (known_findings.txt, query p3dirs[ANSWER=0,ND=4,LOOPCHECK=None]): this fails on the pinned tree: the walk
+ *       stops at the first inode in inode_done_map, including those it marked itself, so a cycle of parents is accepted silently
+ *       (whole-tool demo: demo_p3_dir_cycle.sh).  The C01 (ANSWER 1) queries therefore do NOT assert anything about looped
+ *       directories: PR_3_LOOPED_DIR is unreachable on this tree, convergence is asserted for dangling chains and '..' only.
  *   ANSWER 0: nothing is modified.   ANSWER 1: every dangling X is reconnected (parent = '..' =
  *       lost+found), every wrong '..' is rewritten to the parent, afterwards no chain dangles and every
  *       '..' equals its parent; a second run over the table raises nothing and changes nothing.
@@ -262,6 +266,7 @@ int main(void)
 				if (j == endof[k])
 					want_unconn[j] = 1;
 	PROP(!vf_range_err && vf_badarg == 0 && vf_nother == 0, "only pass-3 problems naming a directory of the table");
+	/* OUTSIDE: directories on (or leading into) a cycle of parents: reported by nothing on this tree (see LOOPCHECK); no repair / convergence claim for them */
 	PROP(vf_loop_alloc == 0, "with at most 6 directories the parent walk never reaches the 2048-deep loop-detection fallback");
 	for (k = 0; k < ND; k++) {
 		if (want_unconn[k])
